@@ -11,6 +11,16 @@ CHECKS = {
         'note': TB + 'Not decided: limit_denominator optimality, float round-trip; i64 overflow excluded by the quantifier.',
         'technique': 'encapsulation enumeration over HIR+MIR, abstract interpretation (template constraints), operator-impl sibling rule',
     },
+    'C01': {
+        'text': 'Static: every call of an *_unchecked rule in the lib is justified (checked wrapper whose matcher establishes the contract; sweep-macro '
+                'instance dominated by a matcher call on the same arguments that establishes the rule\'s contract with no graph mutation in between; three named '
+                'rule-inside-rule exceptions); the inline matchers of fuse_gadgets / remove_gadget_pi establish the phase-gadget contract at the point a gadget is '
+                'recorded; a symbolic effect executor shows that each of the 18 rule bodies (incl. all 8 arms of add_edge_smart) produces exactly the effects of its '
+                'reference schema (phases as linear forms, sqrt2 exponents as polynomials, scalar factors as normalised sums); raw edge insertions only to fresh '
+                'vertices or under a not-connected test.',
+        'note': TB + 'Schemas (refs/effects_ref.py) and contracts (refs/rules_req.py) are the trusted base, reviewed against DESIGN Appendix A.1. Not decided: that the schemas are true ZX identities, termination, panic freedom beyond existence, float tolerance.',
+        'technique': 'guard dominance with must-fact contracts, facts-at-program-point extraction, symbolic effect summaries with polynomial/linear normal forms, freshness dataflow',
+    },
     'C04': {
         'text': 'Static: must-fact extraction over the resolved HIR shows that each of the 14 contracted matchers establishes, on every accepting path, '
                 'every conjunct of its rule precondition that is necessary for soundness or for not panicking (refs/rules_req.py); existence typestate: no '
